@@ -618,6 +618,28 @@ func c07Check(k *kase, withCorr bool) *failure {
 	if f := variant("duplication-of-all", dupAll); f != nil {
 		return f
 	}
+	// padding past the sizes at which implementations switch strategy (16, 32, 64 entries): the same entry repeated, and
+	// entries that can match nothing
+	if rng.Intn(4) == 0 {
+		target := pick3(16, 17, 33, 65, 15, 31)
+		rep := append([]string{}, k.Allowed...)
+		x := k.Allowed[rng.Intn(n)]
+		for len(rep) < target {
+			rep = append(rep, x)
+		}
+		rng.Shuffle(len(rep), func(i, j int) { rep[i], rep[j] = rep[j], rep[i] })
+		if f := variant("padding with repeats of one entry", rep); f != nil {
+			return f
+		}
+		pad := append([]string{}, k.Allowed...)
+		for i := 0; len(pad) < target; i++ {
+			pad = append(pad, "LicenseRef-padding-entry-"+itoa(i))
+		}
+		rng.Shuffle(len(pad), func(i, j int) { pad[i], pad[j] = pad[j], pad[i] })
+		if f := variant("padding with entries that match nothing", pad); f != nil {
+			return f
+		}
+	}
 	// re-spelling
 	rs := make([]string, n)
 	for i, a := range k.Allowed {
